@@ -2,6 +2,7 @@ package main
 
 import (
 	"fmt"
+	"go/types"
 	"sort"
 	"strings"
 
@@ -326,6 +327,52 @@ func propC05(w *World, r *Report) {
 		}
 	}
 	r.Check(found, "G4", "bucket constructed in the constructor", "-", "")
+	// the production constructor hands the bucket a clock that is the wall clock
+	nClock := 0
+	for _, fn := range w.funcsInPkg("throttle") {
+		for _, b := range fn.Blocks {
+			for _, in := range b.Instrs {
+				call, ok := in.(*ssa.Call)
+				if !ok || call.Call.StaticCallee() != c.Ctor || fn == c.Ctor {
+					continue
+				}
+				for _, a := range call.Call.Args {
+					mi, ok := a.(*ssa.MakeInterface)
+					if !ok || !strings.HasSuffix(mi.Type().String(), "ratelimit.Clock") {
+						continue
+					}
+					nClock++
+					ct := mi.X.Type()
+					if p, ok := ct.(*types.Pointer); ok {
+						ct = p.Elem()
+					}
+					okNow := false
+					got := ""
+					for _, T := range []types.Type{ct, types.NewPointer(ct)} {
+						var now *ssa.Function
+						ms := w.Prog.MethodSets.MethodSet(T)
+						for i := 0; i < ms.Len(); i++ {
+							if ms.At(i).Obj().Name() == "Now" {
+								now = w.Prog.MethodValue(ms.At(i))
+							}
+						}
+						if now == nil || now.Synthetic != "" || len(now.Blocks) == 0 {
+							continue
+						}
+						for _, b := range now.Blocks {
+							if ret, ok := b.Instrs[len(b.Instrs)-1].(*ssa.Return); ok && len(ret.Results) == 1 {
+								got = newTermEnv(w).termOf(ret.Results[0]).String()
+								okNow = got == "time.Now()"
+							}
+						}
+					}
+					_ = got
+					r.Check(okNow, "T2", fn.Name()+": the bucket's clock is the wall clock (Now() = time.Now())", w.InstrPos(call), typeShort(mi.X.Type()))
+				}
+			}
+		}
+	}
+	r.Check(nClock >= 1, "G4", "production constructor passes a clock", "-", fmt.Sprint(nClock))
 	checkThrottleWiring(w, r)
 }
 
